@@ -151,6 +151,8 @@ class Pass:
                 return self.only_readers(v)
             if isinstance(tg, ast.Name) and tg.id in ("inp0", "inp1") and isinstance(v, ast.Call) and _txt(v.func) == "_coerce_iterable_units":
                 return True
+            if isinstance(tg, ast.Name) and tg.id in ("inp0", "inp1") and _txt(v) in (f"np.asarray({tg.id})", f"{tg.id}.view(np.ndarray)"):
+                return True                      # the same storage seen as a plain ndarray
             if isinstance(tg, ast.Name) and tg.id == "out_arr" and isinstance(v, ast.Call) and _txt(v.func) in ("_wrap_ufunc_output", "np.array", "tuple"):
                 return True                      # the result wrapped in its class (a view)
             if isinstance(tg, ast.Name) and tg.id in ("i0", "i1") and _txt(v) in ("inputs[0]", "inputs[1]"):
